@@ -335,6 +335,15 @@ func (s *Streamer) stream1(v ssa.Value) []*Piece {
 			if s.acc != nil && s.acc.isField(x.X) {
 				return s.acc.cur
 			}
+			if cell, ok := cellOf(x); ok && cell.Parent() == s.Fn {
+				ps := s.objField(cell, sliceCell, x)
+				for _, p := range ps {
+					if p.Kind == "unknown" {
+						return []*Piece{{Kind: "bytes", Width: -1, Src: v, At: x, Why: p.Why}}
+					}
+				}
+				return ps
+			}
 			if obj, field, ok := objOf(x); ok && obj.Parent() == s.Fn {
 				ps := s.objField(obj, field, x)
 				for _, p := range ps {
@@ -1230,6 +1239,11 @@ func Resolve(v ssa.Value, fr *Frame) (ssa.Value, *Frame) {
 		case *ssa.UnOp, *ssa.Field:
 			// a field of a struct value written once: the value stored there (cells.go)
 			if e, ef, ok := fieldLoad(v, fr); ok {
+				v, fr = e, ef
+				continue
+			}
+			// a captured parameter / local that is assigned once
+			if e, ef, ok := cellLoadValue(v, fr); ok {
 				v, fr = e, ef
 				continue
 			}
